@@ -18,7 +18,8 @@ from concurrent.futures import ThreadPoolExecutor
 
 ROOT = os.path.dirname(os.path.abspath(__file__))
 HARNESS = os.path.join(ROOT, "harness")
-TARGET = os.path.join(ROOT, "target")
+# isolated mutant runs (tools/seed.py) use their own build directory so that their artifacts never mix with the real ones
+TARGET = os.environ.get("VERIF_TARGET_DIR") or os.path.join(ROOT, "target")
 OUT = os.path.join(ROOT, "out")
 # runs against deliberately broken trees (tools/seed.py, selftest) redirect their evidence away from the committed files
 EVIDENCE = os.environ.get("VERIF_EVIDENCE_DIR") or os.path.join(ROOT, "evidence")
